@@ -45,13 +45,13 @@ def check(pid, tier, seed):
     for x, ent in pool:
         K = [tuple(f) for f in x["log"]]
         for _ in range(3):
-            fl = rnd.choice(flagsets)
+            fl = dict(rnd.choice(flagsets), perms=int(rnd.random() < 0.4))
             attrs = {}
             mode = rnd.random()
             if mode < 0.5:
                 # exactly one file violates one active rule
                 f = rnd.choice(K)
-                rule = rnd.choice([k for k, v in fl.items() if v])
+                rule = rnd.choice([k for k in ("owner", "group", "nosym") if fl[k]])
                 attrs[f] = ("foreign" if rule == "owner" else "ok", "foreign" if rule == "group" else "ok", rule == "nosym")
             elif mode < 0.85:
                 for f in K:
@@ -94,7 +94,7 @@ def check(pid, tier, seed):
     rc = verdict.finish()
     cov = {"states": mc.distinct, "transitions": mc.generated, "traces_validated_against_impl": n - bad,
            "evaluations": n * 2, "distinct_nontrivial": nn,
-           "rule": "MC_Security: 2-layer trees x every {matching,foreign} owner/group x {regular,symlink} assignment to the consulted files x every flag history of <= 4 steps. Traces: %d scenarios over 3-layer (econf_readConfigWithCallback) and 3-layer trees with two drop-in directories per layer (CONFIG_DIRS list, econf_set_conf_dirs) and 2-layer trees (econf_readFile, econf_readFileWithCallback on single files; econf_readDirs, econf_readDirsWithCallback, econf_readDirsHistory(+WithCallback), econf_readConfig(+WithCallback) with PARSING_DIRS; the directory arguments also as RELATIVE names) x the 7 non-empty flag combinations x attribute vectors {exactly one file violating one active rule, random vectors, vectors violating only inactive rules}; files are lchown'ed to uid/gid %d resp. replaced by symbolic links; each scenario = set flags, read, econf_reset_security_settings, read again. Trace_Layers computes the violations from the logged attributes and accepts only the code of the first failing file, no object, no callback for the refused file, full content after reset. non-trivial = >= 2 consulted files of which exactly one violates an active rule." % (n, p_layers.FOREIGN),
+           "rule": "MC_Security: 2-layer trees x every {matching,foreign} owner/group x {regular,symlink} assignment to the consulted files x every flag history of <= 4 steps. Traces: %d scenarios over 3-layer (econf_readConfigWithCallback) and 3-layer trees with two drop-in directories per layer (CONFIG_DIRS list, econf_set_conf_dirs) and 2-layer trees (econf_readFile, econf_readFileWithCallback on single files; econf_readDirs, econf_readDirsWithCallback, econf_readDirsHistory(+WithCallback), econf_readConfig(+WithCallback) with PARSING_DIRS; the directory arguments also as RELATIVE names) x the 7 non-empty flag combinations (40 %% of them together with an econf_requirePermissions requirement that every file satisfies) x attribute vectors {exactly one file violating one active rule, random vectors, vectors violating only inactive rules}; files are lchown'ed to uid/gid %d resp. replaced by symbolic links; each scenario = set flags, read, econf_reset_security_settings, read again. Trace_Layers computes the violations from the logged attributes and accepts only the code of the first failing file, no object, no callback for the refused file, full content after reset. non-trivial = >= 2 consulted files of which exactly one violates an active rule." % (n, p_layers.FOREIGN),
            "samples": events[:3], "exhaustive": False, "trusted_base": ["TLC 1.8.0", "gcc ASan/UBSan", "drv.c (runs as root)"]}
     core.write_evidence(pid, tier, seed, "model_checking", cov,
                         ["checks run as root; foreign = uid/gid 54321", "econf_requirePermissions is not part of the property", "process-wide flags are reset after every scenario"],
